@@ -1098,7 +1098,10 @@ func (g *egen) concStmt() *RS {
 		}
 	} else if r.chance(1, 6) || (g.illP > 50 && r.chance(1, 2)) {
 		// (at most one failing child per block: which error of several is reported depends on the schedule)
-		switch r.intn(5) {
+		switch r.intn(6) {
+		case 5:
+			// an assignment whose right-hand side panics in reflect (`!` on a number)
+			pool = append(pool, &RS{Op: "assign", Sym: "=", Tgt: &RE{Op: "var", Sym: "c2"}, E: mkNot(&RE{Op: "var", Sym: "v_int64"})})
 		case 4:
 			pool = append(pool, &RS{Op: "call", E: &RE{Op: "call", Kind: "method", Sym: "S.Blow", Args: []*RE{lit("int64", "1")}}})
 		case 0:
